@@ -158,6 +158,9 @@ func probe(c *restful.Container, entry string, r routing.Req) (ans string) {
 	return sx.K("err", sx.N(rec.Code), sx.A("-")).String()
 }
 
+// SlashTwins switches the p / p-slash probes of Exec on (the C14 check).
+var SlashTwins bool
+
 // Result is what running a history on the real package produced.
 type Result struct {
 	PanicIdx   int // -1: no operation panicked
@@ -172,6 +175,8 @@ type Result struct {
 	FreshVal   string
 	Answers    [][4]string // per probe: histDispatch, freshDispatch, histServe, freshServe
 	Executed   int         // number of History.Ops executed (including the panicking one)
+	SlashPairs int         // p / p-slash pairs probed (SlashTwins)
+	SlashDiff  []string    // pairs whose ServeHTTP answers differ although Dispatch gives both the same outcome
 }
 
 // Exec runs the history on a real container, builds the fresh container and probes both.
@@ -292,6 +297,20 @@ func Exec(h *History) *Result {
 		var a [4]string
 		a[0] = probe(c, "dispatch", p)
 		a[2] = probe(c, "serve", p)
+		if SlashTwins && strings.Trim(p.Path, "/") != "" && !strings.HasSuffix(p.Path, "/") {
+			// C14 through the ServeMux of a container with a past: when the routers give p and p/ the same
+			// outcome, ServeHTTP must too — unless net/http itself redirects one of them
+			q := p
+			q.Path += "/"
+			d2, s2 := probe(c, "dispatch", q), probe(c, "serve", q)
+			res.SlashPairs++
+			mine := func(x string) bool { // net/http redirected, or a plain handler the user registered on that very pattern answered
+				return strings.HasPrefix(x, "(redirect") || strings.HasPrefix(x, "(plain")
+			}
+			if a[0] == d2 && a[2] != s2 && !mine(a[2]) && !mine(s2) {
+				res.SlashDiff = append(res.SlashDiff, fmt.Sprintf("%s %q: ServeHTTP answers %s, with a trailing slash %s (Dispatch answers %s for both)", p.Method, p.Path, a[2], s2, a[0]))
+			}
+		}
 		if res.FreshPanic {
 			a[1], a[3] = "(nocontainer)", "(nocontainer)"
 		} else {
